@@ -20,6 +20,7 @@ functions and mixin methods:
 from __future__ import annotations
 
 import dataclasses
+import importlib
 import datetime
 import json
 import math
@@ -33,6 +34,10 @@ THEOREMS = [
     "Mashu.format_roundtrip",
     "Mashu.ident_natives",
     "Mashu.format_names_distinct",
+    "Mashu.PackF.step_own",
+    "Mashu.PackF.run_own",
+    "Mashu.PackF.unguarded_runs_parent_method",
+    "Mashu.PackF.owner_guard_pinned",
 ]
 RULE = (
     "type-directed generation (depth<=3 quick / 4 thorough) restricted per format to what the format can represent (string keys for JSON/orjson/msgpack/TOML, a table at the top "
@@ -567,9 +572,109 @@ def gen_cases(ctx, n, depth):
     return cases
 
 
+# ---------------------------------------------------------------------------------------
+# per-format methods over class trees (Mashu.PackF): which class's method packs a subclass instance
+# ---------------------------------------------------------------------------------------
+
+PACKF_FLAVOURS = {
+    "msgpack": ("mashumaro.mixins.msgpack", "DataClassMessagePackMixin", "to_msgpack", "__mashumaro_to_dict_msgpack__"),
+    "orjson": ("mashumaro.mixins.orjson", "DataClassORJSONMixin", "to_jsonb", "__mashumaro_to_dict_jsonb__"),
+}
+
+
+def gen_packf(rng):
+    n = rng.randint(2, 5)
+    parents = [None] + [rng.choice([i - 1, i - 1, rng.randrange(i)]) for i in range(1, n)]
+    events, defined, holders = [], 0, []
+    npack = rng.randint(2, 8)
+    packs = 0
+    while defined < n or packs < npack:
+        r = rng.random()
+        if defined < n and (defined == 0 or r < 0.35 or packs >= npack):
+            events.append({"d": [defined, parents[defined]]})
+            defined += 1
+        elif r < 0.55 or not holders:
+            b = rng.randrange(defined)
+            events.append({"h": b})
+            holders.append(b)
+        else:
+            b = rng.choice(holders)
+            desc = [c for c in range(defined) if b in _chain(parents, c)]
+            events.append({"p": [b, rng.choice(desc)]})
+            packs += 1
+    return {"flavour": rng.choice(sorted(PACKF_FLAVOURS)), "events": events}
+
+
+def _chain(parents, c):
+    out = [c]
+    while parents[out[-1]] is not None:
+        out.append(parents[out[-1]])
+    return out
+
+
+def run_packf(ctx, hs):
+    import sys
+    import types as _types
+
+    lines, metas = [], []
+    for h in hs:
+        modname, cname, call, meth = PACKF_FLAVOURS[h["flavour"]]
+        Mixin = getattr(importlib.import_module(modname), cname)
+        m = _types.ModuleType(f"c04_packf_{ctx.evaluations}_{len(metas)}")
+        sys.modules[m.__name__] = m
+        parse = (lambda b: __import__("msgpack").unpackb(b)) if h["flavour"] == "msgpack" else (lambda b: __import__("orjson").loads(b))
+        cls, parents, hold = {}, {}, {}
+        outs, own = [], []
+        case = {"packf": h}
+        try:
+            for e in h["events"]:
+                if "d" in e:
+                    i, p = e["d"]
+                    parents[i] = p
+                    c = type(f"K{i}", (cls[p],) if p is not None else (Mixin,), {"__annotations__": {f"f{i}": int}, f"f{i}": 100 + i, "__module__": m.__name__})
+                    setattr(m, c.__name__, c)
+                    cls[i] = dataclasses.dataclass(c, kw_only=True)
+                elif "h" in e:
+                    b = e["h"]
+                    if b not in hold:
+                        c = type(f"H{b}", (Mixin,), {"__annotations__": {"x": cls[b]}, "__module__": m.__name__})
+                        setattr(m, c.__name__, c)
+                        hold[b] = dataclasses.dataclass(c)
+                else:
+                    b, c = e["p"]
+                    doc = parse(getattr(hold[b](cls[c]()), call)())["x"]
+                    # every class adds one member: the members present identify the class whose method ran
+                    ch = _chain(parents, c)
+                    owner = next((o for o in ch if set(doc) == {f"f{a}" for a in _chain(parents, o)}), None)
+                    outs.append(f"by:{c}:{owner}" if owner is not None else f"fields:{sorted(doc)}")
+                own.append(sorted(i for i, c in cls.items() if meth in c.__dict__))
+        except Exception as e:  # noqa
+            ctx.violation(case, {"error": f"{type(e).__name__}: {e}"[:300]}, "format mixin packs instances of subclasses", "per-format packing failed", lambda f: False)
+            continue
+        finally:
+            sys.modules.pop(m.__name__, None)
+        ctx.count(case, any("p" in e and e["p"][0] != e["p"][1] for e in h["events"]), kind=f"packf:{h['flavour']}")
+        for k, (e, o) in enumerate(zip([e for e in h["events"] if "p" in e], outs)):
+            if o != f"by:{e['p'][1]}:{e['p'][1]}":
+                ctx.violation({"packf": {**h, "events": h["events"]}, "pack": k}, {"observed": o, "instance_of": e["p"][1]},
+                              "an instance is encoded with all members of its own class in every format (as to_dict does)", "members of a subclass instance are lost in the format document", lambda f: False)
+                break
+        lines.append({"op": "packf", "events": h["events"]})
+        metas.append((case, outs, own))
+    res = ctx.model(lines) if lines else []
+    for (case, outs, own), mo in zip(metas, res or []):
+        if mo.get("outs") != outs:
+            ctx.disagreement(case, mo.get("outs"), outs, "packf outcomes")
+        elif [sorted(set(x)) for x in mo.get("own", [])] != own:
+            ctx.disagreement(case, [sorted(set(x)) for x in mo.get("own", [])], own, "packf own-method sets")
+        else:
+            ctx.bump("packf own-method traces compared")
+
+
 def run(ctx):
     ctx.rule = RULE
     ctx.lean_check("Mashu.Props.C04", THEOREMS, extra_targets=["Mashu.Dispatch"])
+    run_packf(ctx, [gen_packf(ctx.rng) for _ in range(150 if ctx.tier == "quick" else 3000)])
     fmts = formats()
     ctx.extra["formats"] = sorted(fmts)
     library_law(ctx, fmts)
@@ -595,6 +700,9 @@ def replay(ctx, body):
     ctx.lean_check("Mashu.Props.C04", THEOREMS, extra_targets=["Mashu.Dispatch"])
     fmts = formats()
     c = body["case"]
+    if c and "packf" in c:
+        run_packf(ctx, [c["packf"]])
+        return ctx.finish()
     if c and "ty" in c:
         run_cases(ctx, [(c["ty"], c["value"])], {c["format"]: fmts[c["format"]]} if c.get("format") in fmts else fmts)
     elif c and "library_law" in c:
